@@ -1,12 +1,16 @@
-(* Extract/Extract.v — extraction of the executable models to OCaml.
+(* Extract/Extract.v — extraction of the executable models and specifications to OCaml.
    ExtrOcamlBasic only: ascii, nat, N, Z, positive stay the extracted inductives. *)
-From CV Require Import Base.Str Model.ShellValue.
+From CV Require Import Base.Str Model.ShellValue Spec.FmtOracle.
 Require Import ExtrOcamlBasic.
 
-Definition n_value := B [118;97;108;117;101].
+Definition n_value := B [118;97;108;117;101].                           (* value *)
+Definition n_fmt_oracle := B [102;109;116;95;111;114;97;99;108;101].    (* fmt_oracle *)
+Definition n_fdecode := B [102;100;101;99;111;100;101].                 (* fdecode *)
 
 Definition dispatch (name : str) (c : list str) : list str :=
   if str_eqb name n_value then run_value c
+  else if str_eqb name n_fmt_oracle then run_fmt_oracle c
+  else if str_eqb name n_fdecode then run_fdecode c
   else [B [85;78;75;78;79;87;78]].
 
 Extraction "model.ml" dispatch.
